@@ -100,7 +100,9 @@ def gen_case(rng, tier="quick"):
                                               "bath_two_dt", "gibbs_pair",
                                               "pt_in_tebd", "parameters",
                                               "chain_control",
-                                              "param_table"]),
+                                              "param_table",
+                                              "open_params",
+                                              "guess_parameters"]),
                         rng.randrange(3), rng.randrange(1, 4)])
             continue
         if k == "new_corr":
@@ -262,6 +264,46 @@ def layout(arr, kind):
 def fingerprint(a):
     return (a.tobytes(), a.shape, a.strides, a.flags.writeable,
             a.flags.c_contiguous, a.flags.f_contiguous, str(a.dtype))
+
+
+def obj_state(obj, depth=0):
+    """Hashable summary of everything an object holds (arrays by content)."""
+    if isinstance(obj, np.ndarray):
+        return ("nd", obj.shape, str(obj.dtype), obj.tobytes())
+    if isinstance(obj, (int, float, complex, str, bool, type(None))):
+        return obj
+    if isinstance(obj, (list, tuple)):
+        return tuple(obj_state(x, depth + 1) for x in obj)
+    if isinstance(obj, dict):
+        return tuple(sorted((str(k), obj_state(v, depth + 1))
+                            for k, v in obj.items()))
+    if callable(obj) and not hasattr(obj, "__dict__"):
+        return "callable"
+    if hasattr(obj, "__dict__") and depth < 4:
+        return tuple(sorted((k, obj_state(v, depth + 1))
+                            for k, v in vars(obj).items()
+                            if not callable(v) or isinstance(v, np.ndarray)))
+    return "opaque"
+
+
+class ObjGuard:
+    """A parameter object supplied by the caller must come back unchanged."""
+
+    def __init__(self, viol):
+        self.viol = viol
+        self.items = []
+
+    def add(self, name, obj):
+        self.items.append((name, obj, obj_state(obj)))
+        return obj
+
+    def check(self, what):
+        for name, obj, st in self.items:
+            if obj_state(obj) != st:
+                self.viol("caller_object_modified", "%s/%s" % (what, name),
+                          "%s: the caller's %s object (%s) was modified by "
+                          "the call" % (what, name, type(obj).__name__),
+                          call=what, object=name)
 
 
 class Guard:
@@ -847,6 +889,81 @@ def run_case(case, dec):
                              array="parameters")
                     want = run(oqupy.ParameterizedSystem(hamp),
                                np.array(table))
+                elif what == "open_params":
+                    # TempoParameters without a memory cut-off, shared by
+                    # computations of different length
+                    need_bath()
+                    b = baths[0]
+                    tol = max(TOL, 100 * EPSREL)
+
+                    def mk():
+                        return oqupy.TempoParameters(dt=0.1, epsrel=EPSREL)
+                    og = ObjGuard(viol)
+
+                    def run(tp):
+                        og.add("parameters", tp)
+                        short = oqupy.pt_tempo_compute(
+                            fresh_bath(b), 0.0, 2.5 * 0.1, tp,
+                            progress_type="silent")
+                        long_ = oqupy.pt_tempo_compute(
+                            fresh_bath(b), 0.0, (steps + 3.5) * 0.1, tp,
+                            progress_type="silent")
+                        t = oqupy.Tempo(oqupy.System(0.5 * o["x"]),
+                                        fresh_bath(b), tp, RHO0, 0.0)
+                        st = t.compute((steps + 3.5) * 0.1,
+                                       progress_type="silent").states
+                        d2 = oqupy.compute_dynamics(
+                            oqupy.System(0.5 * o["x"]), RHO0,
+                            process_tensor=long_,
+                            progress_type="silent").states
+                        del short
+                        return np.concatenate([st.ravel(), d2.ravel()])
+                    shared_tp = mk_shared("tp_open", mk)
+                    got = run(shared_tp)
+                    og.check("PT-TEMPO/TEMPO")
+                    # the reference uses a fresh parameters object per call
+                    fb = fresh_bath(b)
+                    long_ = oqupy.pt_tempo_compute(
+                        fb, 0.0, (steps + 3.5) * 0.1, mk(),
+                        progress_type="silent")
+                    st = oqupy.Tempo(oqupy.System(0.5 * o["x"]),
+                                     fresh_bath(b), mk(), RHO0, 0.0).compute(
+                                         (steps + 3.5) * 0.1,
+                                         progress_type="silent").states
+                    d2 = oqupy.compute_dynamics(
+                        oqupy.System(0.5 * o["x"]), RHO0,
+                        process_tensor=long_, progress_type="silent").states
+                    want = np.concatenate([st.ravel(), d2.ravel()])
+                elif what == "guess_parameters":
+                    # the parameter-estimation front end takes a system and a
+                    # bath and must leave both as they were
+                    need_bath()
+                    b = baths[0]
+
+                    def mk():
+                        return oqupy.System(
+                            0.5 * o["x"] + 0.1 * o["z"], gammas=[0.3, 0.7],
+                            lindblad_operators=[np.array(o["-"]),
+                                                np.array(o["z"])])
+                    sysg = mk_shared("gsys2", mk)
+                    og = ObjGuard(viol)
+                    og.add("system", sysg)
+                    og.add("bath", b["obj"])
+                    with warnings.catch_warnings():
+                        warnings.simplefilter("ignore")
+                        p1 = oqupy.guess_tempo_parameters(
+                            b["obj"], 0.0, 0.5 + 0.1 * steps, system=sysg,
+                            tolerance=0.05)
+                        p2 = oqupy.guess_tempo_parameters(
+                            fresh_bath(b), 0.0, 0.5 + 0.1 * steps,
+                            system=mk(), tolerance=0.05)
+                    og.check("guess_tempo_parameters")
+                    got = np.concatenate([
+                        np.array([p1.dt, p1.epsrel, float(p1.dkmax or 0)]),
+                        np.array(sysg.liouvillian()).ravel()])
+                    want = np.concatenate([
+                        np.array([p2.dt, p2.epsrel, float(p2.dkmax or 0)]),
+                        np.array(mk().liouvillian()).ravel()])
                 else:  # one TempoParameters object for several computations
                     need_bath()
                     b = baths[0]
